@@ -182,6 +182,22 @@ def PlacedIn (n' : Node) (e : Node) : Prop :=
   | .dict | .sparse => ∃ key, (e.withParent (some n'.id)).withKey key ∈ n'.kids
   | _ => False
 
+def IsSeq (k : SKind) : Prop := k = .list ∨ k = .array ∨ k = .multi
+
+/-- the call `op` on container `n` stores the Element `e` itself (rather than a copy of its value
+    or nothing): every Element argument of a placing list-protocol call; for a SparseDict an
+    element of the declared field class assigned to a declared key — by `update` / `|=` the one
+    given last for that key.  (A dense Dict never stores the argument: it sets its existing child.) -/
+def Places (n : Node) (op : Op) (e : Node) : Prop :=
+  match op with
+  | .seq o => IsSeq n.kind ∧ e ∈ placedSeq o
+  | .map (.setitem k (.elem e')) =>
+    e' = e ∧ n.kind = .sparse ∧ ∃ f, fieldFor n.sch.subs k = some f ∧ isInstance e f = true
+  | .map (.updateArgs kvs) =>
+    n.kind = .sparse ∧ ∃ pre post k f, kvs = pre ++ (k, .elem e) :: post ∧ (∀ p ∈ post, p.1 ≠ k) ∧
+      fieldFor n.sch.subs k = some f ∧ isInstance e f = true
+  | _ => False
+
 /-- the call returned normally -/
 def noExc : Out → Prop
   | .exc _ => False
